@@ -26,7 +26,17 @@ impl core::ops::Add<Duration> for MonotonicTime {
         ensures r.t as int == self.t as int + dur_ns(d) as int,
     { unimplemented!() }
 }
-impl MonotonicTime { pub const MAX: MonotonicTime = MonotonicTime { t: u64::MAX }; pub const EPOCH: MonotonicTime = MonotonicTime { t: 0 }; }
+impl MonotonicTime {
+    pub const MAX: MonotonicTime = MonotonicTime { t: u64::MAX };
+    pub const EPOCH: MonotonicTime = MonotonicTime { t: 0 };
+    // assumption: tai_time's checked addition is the exact addition when representable
+    #[verifier::external_body]
+    pub fn checked_add(self, d: Duration) -> (r: Option<MonotonicTime>)
+        ensures
+            self.t as int + dur_ns(d) as int <= u64::MAX as int ==> (r matches Some(x) && x.t as int == self.t as int + dur_ns(d) as int),
+            self.t as int + dur_ns(d) as int > u64::MAX as int ==> r is None,
+    { unimplemented!() }
+}
 
 #[verifier::external_body]
 fn dur_gt(a: &Duration, b: &Duration) -> (r: bool) ensures r == (dur_ns(*a) > dur_ns(*b)) { a > b }
